@@ -283,7 +283,8 @@ class Exec:
 
     def do_copy(self, s):
         src = self.H[s["a"][0]["h"]]
-        self.H[s["h"]] = src.copy()
+        # Tensor.copy() is np.copy of the data (layout kept); the twin does the same
+        self.H[s["h"]] = src.copy() if self.be == "mg" else np.copy(src)
 
     def do_editgrad(self, s):
         if self.be == "np":
